@@ -348,3 +348,24 @@ Proof.
   - apply double_sum_perm. exact HP.
   - apply rsum_perm. apply Permutation_map. exact HP.
 Qed.
+
+(* ---------- an RDM without length: similarity 0 by convention, on either side ---------- *)
+Theorem cosine_zero_norm_l x y : rdot x x = 0 -> cosine ROps x y = 0.
+Proof.
+  intros H. unfold cosine. rsimp2. rewrite H, sqrt_0.
+  replace (is_pos ROps 0) with false; [reflexivity|]. symmetry. apply is_pos_R_false. lra.
+Qed.
+Theorem cosine_zero_norm_r x y : rdot y y = 0 -> cosine ROps x y = 0.
+Proof. intros H. rewrite cosine_sym. apply cosine_zero_norm_l. exact H. Qed.
+
+(* a stack comparison is entry-wise: entry (i,j) is the measure of the i-th with the j-th RDM, whatever else is in the stacks *)
+Theorem all_pairs_entrywise {X} (f : list R -> list R -> X) (a b : list (list R)) i j (d : X) :
+  (i < length a)%nat -> (j < length b)%nat ->
+  nth j (nth i (all_pairs f a b) []) d = f (nth i a []) (nth j b []).
+Proof.
+  intros Hi Hj. unfold all_pairs.
+  rewrite (nth_indep _ [] (map (fun y => f [] y) b)) by (rewrite map_length; exact Hi).
+  rewrite (map_nth (fun x => map (fun y => f x y) b) a [] i).
+  rewrite (nth_indep _ d (f (nth i a []) [])) by (rewrite map_length; exact Hj).
+  rewrite (map_nth (fun y => f (nth i a []) y) b [] j). reflexivity.
+Qed.
